@@ -3698,12 +3698,12 @@ class RockRidgeContinuationBlock:
         Add a new entry to this Rock Ridge Continuation Block.  This method
         attempts to find a gap that fits the new length anywhere within this
         Continuation Block.  If successful, it returns the offset at which
-        it placed this entry.  If unsuccessful, it returns None.
+        it placed this entry.  If unsuccessful, it returns -1.
 
         Parameters:
          length - The length of the entry to find a gap for.
         Returns:
-         The offset the entry was placed at, or None if no gap was found.
+         The offset the entry was placed at, or -1 if no gap was found.
         """
         offset = -1
         # Need to find a gap
